@@ -376,3 +376,33 @@ def load(repo=None, extra_defs=()):
 if __name__ == '__main__':
     p = load()
     print('TUs', len(p.tus), 'functions', len(p.functions), 'records', len(p.records), 'vars', len(p.vars), '%.1fs' % p.load_s)
+
+
+def c_header_decls(repo=None):
+    """Function declarations a C (or SWIG) consumer of masa.h sees: the header is
+    parsed in C mode by the same extractor.  Returns list of decl dicts."""
+    repo = repo or REPO
+    irdir, _ = extract(repo)
+    out = os.path.join(irdir, '_masa_h_c.json')
+    if not os.path.exists(out):
+        tmp = tempfile.mkdtemp(prefix='ch-', dir=CACHE)
+        try:
+            gen_masa_h(repo, os.path.join(tmp, 'inc'))
+            with open(os.path.join(tmp, 'h.c'), 'w') as f:
+                f.write('#include <masa.h>\n')
+            cmd = [EXTRACTOR, '--out=' + os.path.join(tmp, 'h.json'), '--root=' + os.path.join(tmp, 'inc'),
+                   os.path.join(tmp, 'h.c'), '--', '-x', 'c', '-std=gnu11', '-Wno-everything', '-I' + os.path.join(tmp, 'inc')]
+            p = subprocess.run(cmd, stdout=subprocess.PIPE, stderr=subprocess.PIPE, text=True)
+            if p.returncode != 0 or not os.path.exists(os.path.join(tmp, 'h.json')):
+                raise AnalysisBroken('masa.h does not parse as C: ' + p.stderr.strip()[-300:])
+            os.replace(os.path.join(tmp, 'h.json'), out)
+        finally:
+            shutil.rmtree(tmp, ignore_errors=True)
+    with open(out) as f:
+        d = json.load(f)
+    res = []
+    for x in d['decls'] + d['functions']:
+        l = x['l'].split(':')
+        x['l'] = 'src/masa.h.in:%s:%s' % (l[1], l[2])
+        res.append(x)
+    return res
